@@ -2,7 +2,7 @@ SPECIFICATION Spec
 CONSTANTS
   DBs1 = {"d1", "d2"}
   DBs2 = {"d1", "d2"}
-  RPs = {"r1", "r2", "autogen"}
+  RPs = {"r1", "autogen"}
   VirtOrgs = {1}
   MaxOps = 4
   MaxMaps = 3
